@@ -352,6 +352,20 @@ def handle (line : String) : String :=
        | none => "pyerr ValueError"
        | some u => s!"ok {u.authAlg} {hex u.authKey} {u.privAlg} {hex u.privKey}")
     | _, _, _, _, _ => bad
+  | ["asyncrecv", outcomes] =>
+    let parseOut (x : String) : Option PyOut :=
+      match x.splitOn ":" with
+      | ["B"] => some (.raise .BlockingIOError)
+      | ["V", n] => n.toInt?.map (fun v => .value (.scalar (.int v)))
+      | ["E", "SnmpDecodeError"] => some (.raise .SnmpDecodeError)
+      | ["E", "SnmpAuthError"] => some (.raise .SnmpAuthError)
+      | ["E", "NoSuchInstance"] => some (.raise .NoSuchInstance)
+      | ["E", "ValueError"] => some (.raise .ValueError)
+      | ["E", "TimeoutError"] => some (.raise .TimeoutError)
+      | _ => none
+    match parseList parseOut outcomes with
+    | some os => renderPyOut (Py.asyncRecv os)
+    | none => bad
   | ["refresh", given, reqAuth, ncalls, outcomes] =>
     match parseBool01 given, parseBool01 reqAuth, ncalls.toNat?, parseList parseBool01 outcomes with
     | some g, some ra, some n, some oc =>
